@@ -5,7 +5,7 @@
 // @tier Q
 // @reach do_run.done
 // @funcs IPhreeqc::do_run; IPhreeqc::update_errors; IPhreeqc::output_msg; IPhreeqc::log_msg; IPhreeqc::punch_msg
-// @bounds the real run driver IPhreeqc::do_run with the engine replaced by recorded events, 1..3 simulations per call (case split); in each simulation the stub engine emits fixed multi-line text to the output, log and selected-output (user numbers 1 and 3) streams through the wrapper's own message functions, and a dump (with and without -append); string switches by case split (all off / all on / each alone)
+// @bounds the real run driver IPhreeqc::do_run with the engine replaced by recorded events, 1..3 simulations per call (case split); in each simulation the stub engine emits fixed multi-line text to the output, log and selected-output (user numbers 1 and 3) streams through the wrapper's own message functions, and a dump (with and without -append); string switches by case split (all off / all on / each alone / selected-output switch on for only one of the two user numbers, the other being current)
 // @oracle for every stream whose string sink is on: the string is the concatenation of what was emitted, line accessor i returns exactly line i of the string, "" outside 0..count-1, count = number of lines; a sink that is off stays empty; the dump line view always mirrors the complete dump string (also when the dump appends); each call starts with first_read_input set and simulation numbering at 1, forces selected-output headings to be redefined in simulation 1 only, creates one value table per defined user number and marks the component list stale
 // @stubs Phreeqc engine entry points called by do_run (events, see harness/common/engine_run_stubs.inc); iostream model
 // @outside what the engine writes; files on disk (stream pointers are null: file switches off)
@@ -58,12 +58,14 @@ extern "C" void vfh_C09_do_run(void)
 	IPhreeqc::InstancesIndex = 0;
 	IPhreeqc *ip = g_ip = new IPhreeqc();
 	g_sims = (int) vf_int("simulations", 1, 3);
-	int pat = (int) vf_int("string_switches", 0, 5);     /* 0 none, 1 all, 2 output, 3 log, 4 dump, 5 selected output */
+	int pat = (int) vf_int("string_switches", 0, 7);     /* 0 none, 1 all, 2 output, 3 log, 4 dump, 5 selected output (both user numbers), 6 only user 3, 7 only user 1 */
 	g_dump_append = (int) vf_int("dump_append", 0, 1);
-	bool so = pat == 1 || pat == 2, sl = pat == 1 || pat == 3, sd = pat == 1 || pat == 4, ss = pat == 1 || pat == 5;
+	bool so = pat == 1 || pat == 2, sl = pat == 1 || pat == 3, sd = pat == 1 || pat == 4;
+	bool ss1 = pat == 1 || pat == 5 || pat == 7, ss3 = pat == 1 || pat == 5 || pat == 6;
 	ip->SetOutputStringOn(so); ip->SetLogStringOn(sl); ip->SetDumpStringOn(sd);
-	ip->SetCurrentSelectedOutputUserNumber(1); ip->SetSelectedOutputStringOn(ss);
-	ip->SetCurrentSelectedOutputUserNumber(3); ip->SetSelectedOutputStringOn(ss);
+	ip->SetCurrentSelectedOutputUserNumber(3); ip->SetSelectedOutputStringOn(ss3);
+	ip->SetCurrentSelectedOutputUserNumber(1); ip->SetSelectedOutputStringOn(ss1);
+	if (pat == 7) ip->SetCurrentSelectedOutputUserNumber(3);     /* the current user number is not the one whose switch is on */
 	ip->log_on = true; ip->output_on = true; ip->punch_on = true;
 	g_dump_text[0] = "SOLUTION_RAW 1\n -temp 25\n"; g_dump_text[1] = "SOLUTION_RAW 2\n -temp 30\n"; g_dump_text[2] = "MIX_RAW 3\n";
 	g_on_sim = on_sim; g_read = 0; g_evn = 0;
@@ -99,9 +101,9 @@ extern "C" void vfh_C09_do_run(void)
 	if (sd) vf_check("dump.string", want_dump == ip->GetDumpString());
 	vf_check("dump.lines", lines_match(sd ? want_dump.c_str() : "", ip->GetDumpStringLineCount(), g_dmp, ip));
 	ip->SetCurrentSelectedOutputUserNumber(1);
-	if (ss) vf_check("selected_output.1.string", want_s1 == ip->GetSelectedOutputString());
-	vf_check("selected_output.1.lines", lines_match(ss ? want_s1.c_str() : "", ip->GetSelectedOutputStringLineCount(), g_sel, ip));
+	if (ss1) vf_check("selected_output.1.string", want_s1 == ip->GetSelectedOutputString());
+	vf_check("selected_output.1.lines", lines_match(ss1 ? want_s1.c_str() : "", ip->GetSelectedOutputStringLineCount(), g_sel, ip));
 	ip->SetCurrentSelectedOutputUserNumber(3);
-	if (ss) vf_check("selected_output.3.string", want_s3 == ip->GetSelectedOutputString());
-	vf_check("selected_output.3.lines", lines_match(ss ? want_s3.c_str() : "", ip->GetSelectedOutputStringLineCount(), g_sel, ip));
+	if (ss3) vf_check("selected_output.3.string", want_s3 == ip->GetSelectedOutputString());
+	vf_check("selected_output.3.lines", lines_match(ss3 ? want_s3.c_str() : "", ip->GetSelectedOutputStringLineCount(), g_sel, ip));
 }
